@@ -521,10 +521,63 @@ def remove_trait_case(case):
     return dict(reproduced=bool(violated), violated=violated[:8])
 
 
+def owned_container_copy_case(case):
+    """C14: copying an object carries every container value over, whatever length bounds the container trait declares."""
+    import copy
+    import pickle
+    from traits.api import HasTraits, List, Int, Str, Dict, Set
+    violated = []
+
+    class Route(HasTraits):
+        stops = List(Str, ["origin"], minlen=1)
+        legs = List(List(Int, minlen=1))
+        pair = List(Int, [1, 2], minlen=2, maxlen=2)
+        free = List(Int)
+        table = Dict(Str, Int)
+        tags = Set(Str)
+    globals()["Route"] = Route
+    Route.__module__ = __name__
+    Route.__qualname__ = "Route"
+    o = Route(stops=["A", "B", "C"], legs=[[1, 2], [3]], pair=[8, 9], free=[5], table={"a": 1}, tags={"x"})
+    ways = [("copy.deepcopy", lambda: copy.deepcopy(o)), ("clone_traits()", lambda: o.clone_traits()), ("clone_traits(copy='deep')", lambda: o.clone_traits(copy="deep")),
+            ("deepcopy of the bare list", None)]
+    try:
+        blob = pickle.dumps(o)
+        ways.append(("pickle", lambda: pickle.loads(blob)))
+    except Exception:
+        pass
+    for how, make in ways:
+        if make is None:
+            for nm in ("stops", "legs", "pair", "free"):
+                try:
+                    c = copy.deepcopy(getattr(o, nm))
+                    if list(c) != list(getattr(o, nm)):
+                        violated.append("deepcopy(%s) gives %r, the original holds %r" % (nm, list(c), list(getattr(o, nm))))
+                except Exception as e:
+                    violated.append("deepcopy(%s) raised %r" % (nm, e))
+            continue
+        try:
+            n = make()
+        except Exception as e:
+            violated.append("%s raised %r" % (how, e))
+            continue
+        for nm in ("stops", "legs", "pair", "free"):
+            if [list(x) if isinstance(x, list) else x for x in getattr(n, nm)] != [list(x) if isinstance(x, list) else x for x in getattr(o, nm)]:
+                violated.append("%s: %s is %r, the original has %r" % (how, nm, getattr(n, nm), getattr(o, nm)))
+        if dict(n.table) != {"a": 1} or set(n.tags) != {"x"}:
+            violated.append("%s: table / tags are %r / %r" % (how, n.table, n.tags))
+        try:
+            n.stops.append(3)
+            violated.append("%s: the copy's list accepts an invalid item" % how)
+        except Exception:
+            pass
+    return dict(reproduced=bool(violated), violated=violated[:8])
+
+
 def main():
     case = json.loads(sys.stdin.read())
     out = {"get_trait": get_trait_case, "clone": clone_case, "prefix_trait_unhashable": prefix_trait_unhashable_case,
-           "prefix_cache_inherited": prefix_cache_inherited_case, "copy_traits": copy_traits_case, "default_isolation": default_isolation_case, "subclass_cached_getter": subclass_cached_getter_case, "prefix_order": prefix_order_case, "class_state_untouched": class_state_untouched_case, "remove_trait": remove_trait_case}[case["family"]](case)
+           "prefix_cache_inherited": prefix_cache_inherited_case, "copy_traits": copy_traits_case, "default_isolation": default_isolation_case, "subclass_cached_getter": subclass_cached_getter_case, "prefix_order": prefix_order_case, "class_state_untouched": class_state_untouched_case, "remove_trait": remove_trait_case, "owned_container_copy": owned_container_copy_case}[case["family"]](case)
     print(json.dumps(out, default=repr))
 
 
